@@ -61,6 +61,30 @@ def trace_eval_stage(ev, prop, aspects, tier, seed, n_quick=1500, n_thorough=200
                         "expected_paths": [cps(x) for x in j["expect_paths"]],
                         "actual_paths": [cps(x) for x in e.get("paths", [])],
                         "res_locs": e.get("res", []), "trace": True})
+    # binding self-test: corrupt ONE recorded field of ONE event - the validator must reject exactly that event
+    try:
+        first = chunks[0]
+        k = next(i for i, ln in enumerate(first) if '"outcome":"ok"' in ln and '"res":[[' in ln or '"res":[{' in ln)
+        e = json.loads(first[k])
+        if e.get("res"):
+            e["res"] = e["res"][:-1]
+            e["paths"] = e["paths"][:-1]
+            corrupted = first[:k] + [json.dumps(e) + "\n"] + first[k + 1:]
+            cp = trace + ".selftest"
+            with open(cp, "w") as f:
+                f.writelines(corrupted)
+            sub = Evidence(prop, tier, seed)
+            m2, s2 = validate_trace(sub, "Trace_Eval", cp, "Trace_Eval[selftest]")
+            os.remove(cp)
+            base_lines = {m["line"] for m in results[0][0]}
+            new_lines = {m["line"] for m in m2} - base_lines
+            ok = new_lines == {k + 1} or ((k + 1) in base_lines)
+            ev.extra["binding_selftest"] = {"corrupted_event_line": k + 1, "what": "last node removed from the recorded result",
+                                            "rejected_lines_added": sorted(new_lines), "passed": ok}
+            if not ok:
+                raise ToolError(f"binding self-test failed: corrupting event {k+1} was not noticed by Trace_Eval (new mismatch lines: {sorted(new_lines)})")
+    except StopIteration:
+        pass
     ev.evaluations += len(lines)
     ev.distinct_nontrivial += valid_ok
     ev.extra["trace_eval"] = {"events": len(lines), "valid_and_conforming": valid_ok,
